@@ -201,6 +201,12 @@ func (e *authEx) Exec(op string) string {
 		if ap[4][0] == '1' {
 			resp.Account = &fpb.AccountInfo{KycHash: "k", BlackListed: ap[4][1] == '1', GrayListed: ap[4][2] == '1'}
 		}
+		if len(ap[4]) > 3 && ap[4][3] == '1' {
+			resp.Address.SignedTx = []string{"tx-a"}
+		}
+		if len(ap[4]) > 4 && ap[4][4] == '1' {
+			resp.Address.SignaturePolicy.ReplaceKeysSignedTx = []string{"rtx-a"}
+		}
 		entry.Mode, entry.Resp = simpeer.ACLOk, resp
 	default:
 		return "bad-op"
